@@ -443,3 +443,38 @@ func MuxAcceptLate(b *plugin.MuxBroker, id uint32, delay time.Duration) (Xchg, e
 	}
 	return x, nil
 }
+
+// GRPCAcceptImpostor announces id through the broker as usual, but what then listens at the announced
+// address presents a fresh self-signed certificate instead of this side's (somebody else sitting at a
+// brokered address, as far as the dialling side can tell). It answers PingPong with "impostor".
+func GRPCAcceptImpostor(b *plugin.GRPCBroker, id uint32) error {
+	ln, err := b.Accept(id)
+	if err != nil {
+		return err
+	}
+	c, k, _ := GenCert()
+	srv := grpc.NewServer(grpc.Creds(credentials.NewTLS(&tls.Config{Certificates: []tls.Certificate{KeyPair(c, k)}, MinVersion: tls.VersionTLS12})))
+	grpctest.RegisterPingPongServer(srv, &pingPong{msg: "impostor"})
+	go srv.Serve(ln)
+	return nil
+}
+
+// MuxDialHeld is MuxDial with a pause between the Dial and the first byte written: a connection that has
+// been open for a while before it carries its (large) payload.
+func MuxDialHeld(b *plugin.MuxBroker, id uint32, nonce string, n int, hold time.Duration) (Xchg, error) {
+	conn, err := b.Dial(id)
+	if err != nil {
+		return Xchg{}, fmt.Errorf("dial: %w", err)
+	}
+	defer conn.Close()
+	time.Sleep(hold)
+	conn.SetReadDeadline(time.Now().Add(xchgDeadline))
+	if err := writeFrame(conn, id, nonce, n); err != nil {
+		return Xchg{}, fmt.Errorf("write: %w", err)
+	}
+	x, err := readFrame(conn)
+	if err != nil {
+		return x, err
+	}
+	return x, nil
+}
